@@ -1044,16 +1044,18 @@ def _moved_from(body, local, target, depth=0):
     return False
 
 
-def loop_region(ctx, body, bb):
+def loop_region(ctx, body, bb, skip_headers=()):
     """If bb lies in a loop driven by an iterator-like source -- `for x in it`,
     `while let Some(x) = it.next() / walker.walk_next(g) / topo.next(g)`, or
     `while let Some(x) = stream.next().await / rx.recv().await` -- returns
     {"blocks", "iter_expr", "early_exits", "header", "driver", "graph_arg"}."""
     from analysis import NEXT_ITEM_FUTURE
     best = None
+    by_hdr = {}
     for (src, hdr) in body.back_edges():
-        loop = body.natural_loop(src, hdr)
-        if bb not in loop:
+        by_hdr.setdefault(hdr, set()).update(body.natural_loop(src, hdr))     # `continue` adds back edges to the same header
+    for hdr, loop in sorted(by_hdr.items()):
+        if bb not in loop or hdr in skip_headers:
             continue
         cand = None
         for x in sorted(loop):
@@ -1062,7 +1064,9 @@ def loop_region(ctx, body, bb):
                 continue
             p = callee_path(t)
             if p in SYNC_DRIVERS and body.dominates(x, bb):
-                cand = ("sync", x, t, t["dest"]["l"])
+                # the loop's own driver is the one nearest to its header (an inner loop's driver is dominated by it)
+                if cand is None or body.dominates(x, cand[1]):
+                    cand = ("sync", x, t, t["dest"]["l"])
         if cand is None:
             for a in awaits(body):
                 if a.into_bb in loop and a.ready_bb is not None and body.dominates(a.ready_bb, bb) and a.operand["k"] != "const":
@@ -1610,7 +1614,7 @@ def S6(ctx, rule="S6", roles_filter=None):
             ctx.bad(rule, key, where,
                     "%s channel capacity `%s` is not a monotone function of node_count(): ids (errors) can be dropped / senders can block when the graph is wider" % (
                         role, fmt_expr(e, b)))
-    ctx.floor(rule, 2 if roles_filter is None or "READY" in roles_filter else 1, "mpsc channel allocations")
+    ctx.floor(rule, 2 if roles_filter is None or ("READY" in roles_filter and "DONE" in roles_filter) else 1, "mpsc channel allocations")
 
 
 def result_uses_panicking(ctx, body, bb, t):
